@@ -17,7 +17,10 @@ Open Scope list_scope.
 Definition dotted_err : err := EGo "symbol contains '.'".
 
 (* [strict]: the dotted-module error cannot come out of this kind of command at all *)
-Definition nonsentinel (e : err) : Prop := match e with ESentinel _ => False | _ => True end.
+(* not one of the control-flow signals break / continue / return (the interrupt sentinel may come
+   out of an expression: `??` polls the context before its right side) *)
+Definition nonsentinel (e : err) : Prop :=
+  match e with ESentinel SBreakS | ESentinel SContinueS | ESentinel SReturnS => False | _ => True end.
 Definition anyerr (e : err) : Prop := True.
 (* a loop consumes break and continue *)
 Definition noloopsig (e : err) : Prop := e <> ESentinel SBreakS /\ e <> ESentinel SContinueS.
@@ -335,7 +338,7 @@ Proof.
 Qed.
 
 
-Lemma invoke_coalesce_env l r s : env_eq true nonsentinel (r_env s) (invoke_coalesce rec l r s).
+Lemma invoke_coalesce_env l r s : env_eq true nonsentinel (r_env s) (invoke_coalesce cancel_at rec l r s).
 Proof.
   unfold invoke_coalesce.
   pose proof (Hrec (CExpr l) s) as H. simp.
@@ -343,9 +346,11 @@ Proof.
   - destruct (is_nil _); [|exact H].
     pose proof (Hrec (CExpr r) s1) as Hx. simp. eapply env_eq_to; [|exact Hx]. congruence.
   - destruct H as [[H _]|[H He]]; [discriminate|].
-    assert (Hr : env_eq true nonsentinel (r_env s) (rec (CExpr r) s1)).
-    { pose proof (Hrec (CExpr r) s1) as Hx. simp. eapply env_eq_to; [|exact Hx]. congruence. }
-    destruct e as [[| | |]|m|m]; try exact Hr. destruct He.
+    destruct (poll cancel_at s1) as [cancelled s2] eqn:Hp.
+    assert (H2 : r_env s2 = r_env s1) by (unfold poll in Hp; injection Hp as _ <-; reflexivity).
+    destruct cancelled.
+    + right. split; [simp; congruence|exact I].
+    + pose proof (Hrec (CExpr r) s2) as Hx. simp. eapply env_eq_to; [|exact Hx]. congruence.
 Qed.
 
 Ltac call_rec e0 :=
@@ -386,7 +391,7 @@ Proof.
   destruct (deref _ _); try fin; call_rec (r_env s).
 Qed.
 
-Lemma invoke_expr_env e s : env_eq true nonsentinel (r_env s) (invoke_expr orc rec e s).
+Lemma invoke_expr_env e s : env_eq true nonsentinel (r_env s) (invoke_expr orc cancel_at rec e s).
 Proof.
   destruct e; cbn [invoke_expr]; try exact I.
   - apply invoke_operator_env.
